@@ -36,6 +36,7 @@ type hSys struct {
 	mut     map[int]*handler.MutableEventHandler[hPayload]
 	canc    map[int]*handler.CancelableEventHandler[hPayload]
 	probing bool
+	nlog    int // emissions this logger was handed (probing ones included)
 	probe   []int
 	out     []*wire.Rec
 	depth   int
@@ -95,7 +96,13 @@ func (s *hSys) run(h, kind, lid int, script []hAct, x int) (int, bool) {
 	return x, false
 }
 
+// a second registered logger: it only counts; every emission must reach it exactly once as well
+type hCounter struct{ n int }
+
+func (c *hCounter) Log(any) { c.n++ }
+
 func (s *hSys) Log(e any) {
+	s.nlog++
 	if s.probing {
 		return
 	}
@@ -133,7 +140,21 @@ func (handlerComp) Exec(c *wire.Case, w *wire.Writer) {
 	defer w.End()
 	s := &hSys{plain: map[int]*handler.EventHandler[hPayload]{}, prio: map[int]*handler.PriorityEventHandler[hPayload]{},
 		mut: map[int]*handler.MutableEventHandler[hPayload]{}, canc: map[int]*handler.CancelableEventHandler[hPayload]{}}
-	logging.InitLoggers(s)
+	// several registered loggers, in arrangements that include the no-op logger at every position
+	second := &hCounter{}
+	switch len(c.Ops) % 5 {
+	case 0:
+		logging.InitLoggers(s)
+		second = nil
+	case 1:
+		logging.InitLoggers(s, second)
+	case 2:
+		logging.InitLoggers(logging.NewNilLogger(), s, second)
+	case 3:
+		logging.InitLoggers(s, logging.NewNilLogger(), second)
+	default:
+		logging.InitLoggers(second, s, logging.NewNilLogger())
+	}
 	defer logging.InitLoggers()
 	for _, op := range c.Ops {
 		if op.Name == "ord" {
@@ -195,6 +216,10 @@ func (handlerComp) Exec(c *wire.Case, w *wire.Writer) {
 				s.out = append(s.out, wire.R("badop"))
 			}
 		}()
+		if second != nil && second.n != s.nlog {
+			s.out = append(s.out, wire.R("logger2").I("got", second.n).I("want", s.nlog))
+			second.n = s.nlog
+		}
 		for _, r := range s.out {
 			w.Ob(r)
 		}
